@@ -78,7 +78,7 @@ def parse_verdicts(out):
 def explain_blocks(out):
     """-> {id: text} for <<"EXPLAIN", id, ...>> blocks (multi-line, bracket matched)"""
     res = {}
-    for m in re.finditer(r'<<"EXPLAIN", (-?\d+),', out):
+    for m in re.finditer(r'<<\s*"EXPLAIN",\s*(-?\d+),', out):
         i = m.start()
         depth = 0
         j = i
